@@ -37,7 +37,7 @@ SUMS = [('CubicSplineND', 'getEnergyGradTimes', 0), ('CubicSplineND', 'getEnergy
 def tasks(tier):
     # the DIM-specialised septic gradient branches (DIM <= 3 and DIM > 3), per-iteration lemmas only
     T = []
-    cfgs = [('SepticSplineND', 4, 3)] if tier == 'quick' else [('SepticSplineND', D, d) for D in (1, 2, 3, 4) for d in range(D)]
+    cfgs = [('SepticSplineND', 4, 3)] if tier == 'quick' else [('SepticSplineND', 4, 3), ('SepticSplineND', 4, 0), ('SepticSplineND', 2, 1), ('SepticSplineND', 1, 0)]
     for cls, D, d in cfgs:
         t = Task(cls, 'propagateGradInternal', 6, {'DIM': D}, label='%s,DIM=%d,coord=%d' % (cls.replace('SplineND', ''), D, d), gen_options={'focus': d})
         t.obligation_filter = r'/local\.'
